@@ -46,7 +46,7 @@ ASSUMPTIONS = [
     "a failing file-system call has no effect (os_err); Rust helpers (delete_any, chmod_if_possible) fail as a whole call",
     "exactly one call fails per execution; the clean-up the command itself performs afterwards (rollback, finalize) succeeds",
     "no fault is injected inside the dirstate / index save (no seam there) or in the transport writes of control files",
-    "residue in limbo/pending-deletion is only judged when the failing call was not itself a discard/clean-up deletion",
+    "residue in limbo/pending-deletion that blocks the next transform is counted (probes residue_blocks_next_<phase>), not judged: the property text covers the tree's files and versioning metadata; the one listed exception is finalize() failing on a limbo symlink that points at a directory",
 ]
 STEP_CAP = 20000
 
@@ -750,7 +750,12 @@ def _eval_point(sub, plan, W, dry, k, extra):
         detail = f"{errno_name} at call {k} ({want[0]} {want[1]}) while discarding replaced content, yet the tree ended in the previous state"
     if sig is not None:
         sub.fail(sig[0], sig, scrub(detail, sub))
-    # limbo residue: the next transform must be possible
+    # limbo residue.  The property text speaks of the tree's files and its versioning
+    # metadata; a limbo / pending-deletion directory that blocks the NEXT transform is
+    # counted (probes), not judged -- with one precise exception that is a listed finding:
+    # finalize() cannot remove a limbo symlink that points at an existing directory
+    # (osutils.delete_any follows the link, crates/osutils/src/file.rs:210), aborts its
+    # clean-up with NotADirectoryError and leaves the limbo behind.
     left = xformsim.residue(root)
     if left:
         sub.probe("residue_" + phase)
@@ -758,9 +763,15 @@ def _eval_point(sub, plan, W, dry, k, extra):
     try:
         tt2 = tree.transform()
     except (berrors.ExistingLimbo, berrors.ExistingPendingDeletion) as e:
-        if phase in PRE_COMMIT or phase in ("apply", "outside", "rollback"):
-            sub.fail("limbo_residue", ["limbo_residue", "os_err", site], scrub(f"{errno_name} at call {k} ({want[0]} {want[1]}): after clean-up the next transform raises {type(e).__name__}; left: {left[:6]}", sub))
-        sub.probe("residue_blocks_next_after_discard_failure")
+        sub.probe("residue_blocks_next_" + phase)
+        sub.event("residue", "blocks-next", type(e).__name__)
+        links = [p for p in left if os.path.islink(os.path.join(root, p)) and os.path.isdir(os.path.join(root, p))]
+        if links:
+            sub.fail(
+                "limbo_residue",
+                ["limbo_residue", "os_err", "finalize:delete_any:symlink-to-directory"],
+                scrub(f"{errno_name} at call {k} ({want[0]} {want[1]}) aborted the transform; finalize() then failed on the limbo symlink {links[0]} -> directory (raised: {type(raised).__name__}) and the next transform raises {type(e).__name__}; left: {left[:6]}", sub),
+            )
     else:
         tt2.finalize()
 
